@@ -104,12 +104,17 @@ CLAIMED = {
              "quad and all BeaconGate enabled sets (gate_sound_complete, stated over sets, not by enumerating 2^23), the model of the parser returns "
              "exactly the encoded steps in order and nothing else; domain/URI pairs, protocol, port, kill date, watermark, trial flag derive "
              "consistently. Opcode tables and SETTING_TO_PRETTYFUNC keys are regenerated from the imported package and proved equal to hand-written "
-             "Cobalt Strike numbering on every run.",
+             "Cobalt Strike numbering on every run. "
+             "The decoders null_terminated_bytes/str, parse_pivot_frame, parse_process_injection_transform_steps, parse_gargle, parse_recover_binary, "
+             "parse_transform_binary and parse_execute_list are additionally translated from their source text on every run (untyped translator "
+             "tools/py2leanu.py -> Gen/PyBeacon.lean over Model/PyU.lean) and proved equal to the model for all inputs (C03Gen.gen_*, 10 theorems).",
         note="BytesIO, int.from_bytes, UTF-8/latin-1 decoding, dissect.cstruct enum/flag naming and ipaddress are modelled and validated by "
              "correspondence (0.25M quick / 2.4M thorough cases, directly and through BeaconConfig(block).settings), not verified; SHA-256 is a "
              "parameter. BeaconProtocol names for combined/undefined flag values and wrongly-typed settings are outside the theorems. Known finding "
              "C03-killdate-legacy-fallback-dead (full statement kept as killdate_legacy_full with a proof of its negation).",
-        design="§4 C03",
+        design="§4 C03, §12.2",
+        technique="Lean 4 theorems about an executable model; model tied to the code by source-to-Lean translation (proved equal) and by a "
+                  "model/implementation correspondence check",
     ),
     "C04": dict(
         text="Lean 4 proofs over an executable model of HttpDataTransform: each of the seven encoders is inverted by its decoder on all byte strings "
